@@ -404,9 +404,10 @@ def gen_alignments(rng):
         free = [i for i in range(60, 90) if i not in data]
         for i, (t, w) in zip(rng.sample(free, 3), SWAP_ROWS):
             data[i] = [t, "woldemort", w.replace(" ", ""), w.split(), 20]
+    ignore = rng.choice(["all", [], []])
     return {"type": "alignments", "mode": "valid", "data": data, "prettify": rng.choice([True, False]),
             "analysis": "align", "swap_check": swap, "history": rng.choice([1, 2, 2]),
-            "ignore": rng.choice(["all", [], []]), "plant_local": rng.random() < 0.3}
+            "ignore": ignore, "plant_local": ignore == [] and rng.random() < 0.4}
 
 
 def from_json(c):
